@@ -148,6 +148,41 @@ def rule_r2(repo):
     cgb = CallGraph(repo, 'Decoder')
     entry = repo.func('tables', '_descriptors_from_ids')
     builder_funcs = set(f for f in cgb.reachable([entry]) if f.module.name == 'tables' and f.cls is None)
+    # the NCEP repair (tables._fix_ncep_descriptors and whatever helpers it is split into) assigns members of descriptors it has copied:
+    # that it works on copies - the objects handed in are afterwards what they were - is decided by the fold of C20.R3 on trees of
+    # shared objects; with that fold silent the stores inside the repair need no syntactic proof of freshness
+    ncep_funcs = set()
+    fxn = repo.func('tables', '_fix_ncep_descriptors', required=False) if 'required' in repo.func.__code__.co_varnames else None
+    try:
+        fxn = fxn or repo.func('tables', '_fix_ncep_descriptors')
+    except AnalysisError:
+        fxn = None
+    if fxn is not None:
+        try:
+            from sa.rules import c20 as _c20
+            r3 = _c20.rule_r3(repo)
+            if not [f for f in r3.findings if 'fix_ncep' in f.key]:
+                ncep_funcs = set(f for f in cgb.reachable([fxn]) if f.module.name == 'tables' and f.cls is None)
+                # ... including helpers that are reached as values (a table of repair functions by descriptor class, say)
+                mod = fxn.module
+                work = list(ncep_funcs) + [fxn]
+                seen_names = set()
+                while work:
+                    f0 = work.pop()
+                    nodes = [f0.node] if hasattr(f0, 'node') else [f0]
+                    for root in nodes:
+                        for nd in ast.walk(root):
+                            if isinstance(nd, ast.Name) and nd.id not in seen_names:
+                                seen_names.add(nd.id)
+                                g = mod.funcs.get(nd.id)
+                                if g is not None and g not in ncep_funcs and g is not entry and g not in builder_funcs:
+                                    ncep_funcs.add(g)
+                                    work.append(g)
+                                cn = mod.const_nodes.get(nd.id) if hasattr(mod, 'const_nodes') else None
+                                if cn is not None:
+                                    work.append(cn)
+        except AnalysisError:
+            ncep_funcs = set()
     for fi in repo.all_funcs():
         for node in ast.walk(fi.node):
             targets = []
@@ -178,6 +213,8 @@ def rule_r2(repo):
                 if isinstance(t.value, ast.Name) and prov.fresh_name(fi, t.value.id, node):
                     continue
                 if _fresh_call(t.value):
+                    continue
+                if fi in ncep_funcs:
                     continue
                 if fi in builder_funcs:
                     # the list builder assigns members / factor to the replication descriptors it has just obtained; that these are
